@@ -393,4 +393,210 @@ theorem roomy_i32 : Roomy ⟨true, 32⟩ := ⟨by decide, fun z h => guard_fits_
 theorem roomy_i64 : Roomy ⟨true, 64⟩ := ⟨by decide, fun z h => guard_fits_i64 z h⟩
 theorem roomy_i128 : Roomy ⟨true, 128⟩ := ⟨by decide, fun z h => guard_fits_i128 z h⟩
 
+/-! ### No wrap up to the true edge of a signed integer type
+
+`magOk`, `domNew`, `domAdd`, … (`Model/Rational.lean`) describe, for one concrete pair of operands, that the intermediate
+values of the specified computation fit the type.  On that domain the checked machine instantiation computes what the
+unbounded one computes — for every signed width, with no guard box. -/
+
+section edge
+variable (t : IntTy) (hs : t.signed = true)
+include hs
+
+theorem fits_iff_signed (z : Int) : t.fits z = true ↔ -(2 ^ (t.bits - 1) : Int) ≤ z ∧ z ≤ (2 ^ (t.bits - 1) : Int) - 1 := by
+  simp only [IntTy.fits, IntTy.minVal, IntTy.maxVal, hs, if_true, Bool.and_eq_true, decide_eq_true_eq]
+
+theorem maxVal_signed : t.maxVal = (2 ^ (t.bits - 1) : Int) - 1 := by simp only [IntTy.maxVal, hs, if_true]
+
+theorem magOk_iff (z : Int) : magOk t z = true ↔ z.natAbs ≤ t.maxVal.toNat := by
+  have hp : (0 : Int) < 2 ^ (t.bits - 1) := Int.pow_pos (by decide)
+  simp only [magOk, maxVal_signed t hs, Bool.and_eq_true, decide_eq_true_eq]
+  generalize (2 : Int) ^ (t.bits - 1) = P at hp ⊢
+  omega
+
+theorem fits_of_natAbs_le (z : Int) (h : z.natAbs ≤ t.maxVal.toNat) : t.fits z = true := by
+  have hp : (0 : Int) < 2 ^ (t.bits - 1) := Int.pow_pos (by decide)
+  rw [fits_iff_signed t hs]
+  rw [maxVal_signed t hs] at h
+  generalize (2 : Int) ^ (t.bits - 1) = P at hp h ⊢
+  omega
+
+theorem fits_of_magOk (z : Int) (h : magOk t z = true) : t.fits z = true :=
+  fits_of_natAbs_le t hs z ((magOk_iff t hs z).mp h)
+
+theorem magOk_of_natAbs_le (z w : Int) (h : magOk t w = true) (hz : z.natAbs ≤ w.natAbs) : magOk t z = true :=
+  (magOk_iff t hs z).mpr (Nat.le_trans hz ((magOk_iff t hs w).mp h))
+
+/-- Truncating division by a positive number moves towards zero, so it stays inside the type (`MIN` included). -/
+theorem fits_tdiv_pos (x y : Int) (hx : t.fits x = true) (hy : 0 < y) : t.fits (x.tdiv y) = true := by
+  rw [fits_iff_signed t hs] at hx ⊢
+  have hp : (0 : Int) < 2 ^ (t.bits - 1) := Int.pow_pos (by decide)
+  generalize (2 : Int) ^ (t.bits - 1) = P at hp hx ⊢
+  rcases Int.lt_or_le x 0 with hneg | hpos
+  · have e : x.tdiv y = -((-x) / y) := by
+      have e1 : x = -(-x) := by omega
+      conv_lhs => rw [e1]
+      rw [Int.neg_tdiv, Int.tdiv_eq_ediv_of_nonneg (by omega)]
+    have h1 : 0 ≤ (-x) / y := Int.ediv_nonneg (by omega) (by omega)
+    have h2 : (-x) / y ≤ -x := Int.ediv_le_self _ (by omega)
+    omega
+  · rw [Int.tdiv_eq_ediv_of_nonneg hpos]
+    have h1 : 0 ≤ x / y := Int.ediv_nonneg hpos (by omega)
+    have h2 : x / y ≤ x := Int.ediv_le_self _ hpos
+    omega
+
+theorem new_edge (a b : Int) (ha : magOk t a = true) (hb : magOk t b = true) : new (some t) a b = new none a b :=
+  norm_nowrap t _ (fits_of_natAbs_le t hs) a b ((magOk_iff t hs a).mp ha) ((magOk_iff t hs b).mp hb)
+
+theorem add_edge (x y : Q) (h : domAdd t x y = true) : add (some t) x y = add none x y := by
+  simp only [domAdd, Bool.and_eq_true] at h
+  obtain ⟨⟨⟨h1, h2⟩, h3⟩, h4⟩ := h
+  unfold add
+  simp only [chk_some_of_fits t _ h1, chk_some_of_fits t _ h2, chk_some_of_fits t _ (fits_of_magOk t hs _ h3),
+    chk_some_of_fits t _ (fits_of_magOk t hs _ h4), chk_none, ok_bind]
+  exact new_edge t hs _ _ h3 h4
+
+theorem sub_edge (x y : Q) (h : domSub t x y = true) : sub (some t) x y = sub none x y := by
+  simp only [domSub, Bool.and_eq_true] at h
+  obtain ⟨⟨⟨h1, h2⟩, h3⟩, h4⟩ := h
+  unfold sub
+  simp only [chk_some_of_fits t _ h1, chk_some_of_fits t _ h2, chk_some_of_fits t _ (fits_of_magOk t hs _ h3),
+    chk_some_of_fits t _ (fits_of_magOk t hs _ h4), chk_none, ok_bind]
+  exact new_edge t hs _ _ h3 h4
+
+theorem mul_edge (x y : Q) (h : domMul t x y = true) : mul (some t) x y = mul none x y := by
+  simp only [domMul, Bool.and_eq_true] at h
+  obtain ⟨h1, h2⟩ := h
+  unfold mul
+  simp only [chk_some_of_fits t _ (fits_of_magOk t hs _ h1), chk_some_of_fits t _ (fits_of_magOk t hs _ h2), chk_none, ok_bind]
+  exact new_edge t hs _ _ h1 h2
+
+theorem div_edge (x y : Q) (h : domDiv t x y = true) : div (some t) x y = div none x y := by
+  simp only [domDiv, Bool.and_eq_true] at h
+  obtain ⟨⟨_, h1⟩, h2⟩ := h
+  unfold div
+  simp only [chk_some_of_fits t _ (fits_of_magOk t hs _ h1), chk_some_of_fits t _ (fits_of_magOk t hs _ h2), chk_none, ok_bind]
+  exact new_edge t hs _ _ h1 h2
+
+theorem cmp_edge (x y : Q) (h : domSub t x y = true) : cmp (some t) x y = cmp none x y := by
+  unfold cmp
+  rw [sub_edge t hs x y h]
+
+theorem binop_edge (op : BinOp) (x y : Q) (h : op.dom t x y = true) : op.apply (some t) x y = op.apply none x y := by
+  cases op
+  · exact add_edge t hs x y h
+  · exact sub_edge t hs x y h
+  · exact mul_edge t hs x y h
+  · exact div_edge t hs x y h
+
+theorem neg_edge (x : Q) (h : magOk t x.a = true) : neg (some t) x = neg none x := by
+  unfold neg
+  rw [chk_some_of_fits t _ (fits_of_natAbs_le t hs _ (by rw [Int.natAbs_neg]; exact (magOk_iff t hs _).mp h)), chk_none]
+
+theorem floor_edge (x : Q) (hb : 0 < x.b) (hfa : t.fits x.a = true) (h : domFloor t x = true) :
+    floor (some t) x = floor none x := by
+  have hb0 : x.b ≠ 0 := by omega
+  unfold floor
+  by_cases h0 : 0 ≤ x.a
+  · simp only [if_pos h0, divT, if_neg hb0, chk_none, chk_some_of_fits t _ (fits_tdiv_pos t hs _ _ hfa hb)]
+  · have f1 : t.fits (x.a - x.b) = true := by
+      simp only [domFloor, Bool.or_eq_true, decide_eq_true_eq] at h
+      rcases h with h | h
+      · exact absurd h h0
+      · exact h
+    have f2 : t.fits (x.a - x.b + 1) = true := by
+      rw [fits_iff_signed t hs] at f1 hfa ⊢
+      omega
+    simp only [if_neg h0, chk_some_of_fits _ _ f1, chk_some_of_fits _ _ f2, chk_none, ok_bind, divT, if_neg hb0,
+      chk_some_of_fits t _ (fits_tdiv_pos t hs _ _ f2 hb)]
+
+theorem ceil_edge (x : Q) (hb : 0 < x.b) (hfa : t.fits x.a = true) (h : domCeil t x = true) :
+    ceil (some t) x = ceil none x := by
+  have hb0 : x.b ≠ 0 := by omega
+  unfold ceil
+  by_cases h0 : 0 ≤ x.a
+  · have f1 : t.fits (x.a + x.b) = true := by
+      simp only [domCeil, Bool.or_eq_true, decide_eq_true_eq] at h
+      rcases h with h | h
+      · omega
+      · exact h
+    have f2 : t.fits (x.a + x.b - 1) = true := by
+      rw [fits_iff_signed t hs] at f1 hfa ⊢
+      omega
+    simp only [if_pos h0, chk_some_of_fits _ _ f1, chk_some_of_fits _ _ f2, chk_none, ok_bind, divT, if_neg hb0,
+      chk_some_of_fits t _ (fits_tdiv_pos t hs _ _ f2 hb)]
+  · simp only [if_neg h0, divT, if_neg hb0, chk_none, chk_some_of_fits t _ (fits_tdiv_pos t hs _ _ hfa hb)]
+
+/-- `new` inside its edge domain returns the canonical form, whose fields are no larger than the arguments. -/
+theorem new_edge_ofRat (a b : Int) (h : domNew t a b = true) :
+    new (some t) a b = .ok (ofRat (Rat.divInt a b)) ∧ magOk t (ofRat (Rat.divInt a b)).a = true ∧
+      magOk t (ofRat (Rat.divInt a b)).b = true := by
+  simp only [domNew, Bool.and_eq_true, decide_eq_true_eq] at h
+  obtain ⟨⟨hb0, ha⟩, hb⟩ := h
+  have hn := new_none a b hb0
+  obtain ⟨h1, h2⟩ := norm_fields_le a b _ hn
+  exact ⟨by rw [new_edge t hs a b ha hb, hn], magOk_of_natAbs_le t hs _ _ ha h1, magOk_of_natAbs_le t hs _ _ hb h2⟩
+
+end edge
+
+/-- The four operators over unbounded integers, uniformly: the exact `Rat` result in canonical form. -/
+theorem binop_none (op : BinOp) (x y : Q) (hx : x.b ≠ 0) (hy : y.b ≠ 0) (hd : op = .div → y.a ≠ 0) :
+    op.apply none x y = .ok (ofRat (op.spec (toRat x) (toRat y))) := by
+  cases op
+  · exact add_none x y hx hy
+  · exact sub_none x y hx hy
+  · exact mul_none x y hx hy
+  · exact div_none x y hx (hd rfl)
+
+/-- The guard box of the property lies inside the edge domain (so the driver's definite answers cover it). -/
+theorem small_dom (t : IntTy) (hs : t.signed = true) (G : Nat)
+    (hfit : ∀ z : Int, z.natAbs ≤ 2 * G * G → t.fits z = true) (x y : Q) (hx : Small G x) (hy : Small G y) :
+    domAdd t x y = true ∧ domSub t x y = true ∧ domMul t x y = true ∧ (y.a ≠ 0 → domDiv t x y = true) := by
+  have hmag : ∀ z : Int, z.natAbs ≤ 2 * G * G → magOk t z = true := by
+    intro z hz
+    have h1 := hfit z hz
+    have h2 := hfit (-z) (by rw [Int.natAbs_neg]; exact hz)
+    rw [fits_iff_signed t hs] at h1 h2
+    have hp : (0 : Int) < 2 ^ (t.bits - 1) := Int.pow_pos (by decide)
+    simp only [magOk, maxVal_signed t hs, Bool.and_eq_true, decide_eq_true_eq]
+    omega
+  have e : 2 * G * G = 2 * (G * G) := by ring
+  have p1 := natAbs_mul_le G _ _ hx.1 hy.2
+  have p2 := natAbs_mul_le G _ _ hx.2 hy.1
+  have p3 := natAbs_mul_le G _ _ hx.2 hy.2
+  have p4 := natAbs_mul_le G _ _ hx.1 hy.1
+  have p5 := Int.natAbs_add_le (x.a * y.b) (x.b * y.a)
+  have p6 := Int.natAbs_sub_le (x.a * y.b) (x.b * y.a)
+  refine ⟨?_, ?_, ?_, ?_⟩
+  · simp only [domAdd, Bool.and_eq_true]
+    exact ⟨⟨⟨hfit _ (by omega), hfit _ (by omega)⟩, hmag _ (by omega)⟩, hmag _ (by omega)⟩
+  · simp only [domSub, Bool.and_eq_true]
+    exact ⟨⟨⟨hfit _ (by omega), hfit _ (by omega)⟩, hmag _ (by omega)⟩, hmag _ (by omega)⟩
+  · simp only [domMul, Bool.and_eq_true]
+    exact ⟨hmag _ (by omega), hmag _ (by omega)⟩
+  · intro hya
+    simp only [domDiv, Bool.and_eq_true, decide_eq_true_eq]
+    exact ⟨⟨hya, hmag _ (by omega)⟩, hmag _ (by omega)⟩
+
+/-! ### Order-based observations on several values -/
+
+theorem sortSpec_perm (ps : List Rat) : (sortSpec ps).Perm ps := List.mergeSort_perm _ _
+
+theorem sortSpec_sorted (ps : List Rat) : (sortSpec ps).Pairwise (fun p q => p ≤ q) := by
+  have h := List.pairwise_mergeSort (le := fun (p q : Rat) => decide (p ≤ q))
+    (fun a b c hab hbc => by
+      simp only [decide_eq_true_eq] at hab hbc ⊢
+      exact Rat.le_trans hab hbc)
+    (fun a b => by
+      simp only [Bool.or_eq_true, decide_eq_true_eq]
+      exact Rat.le_total) ps
+  unfold sortSpec
+  exact h.imp (fun hab => by simpa using hab)
+
+/-- The sorted order is unique: any non-decreasing arrangement of the same values IS `sortSpec`. -/
+theorem sortSpec_unique (ps qs : List Rat) (hperm : qs.Perm ps) (hsorted : qs.Pairwise (fun p q => p ≤ q)) :
+    sortSpec ps = qs :=
+  List.Perm.eq_of_pairwise (le := fun (p q : Rat) => p ≤ q) (fun _ _ _ _ h1 h2 => Rat.le_antisymm h1 h2)
+    (sortSpec_sorted ps) hsorted ((sortSpec_perm ps).trans hperm.symm)
+
 end Rlib.Rational
